@@ -1188,6 +1188,20 @@ def _argmax_model(nan_aware):
     return m
 
 
+def argmax_instance(entry, rest, k):
+    """the instance at position k of the (arg)max specification axiom of a logged reduction (reduce_log entry of np.argmax / np.nanargmax):
+    a consequence of a hypothesis already in the context, offered as a proof hint where the solver has no term to trigger on"""
+    from .core import NAN
+    ax_ = entry["axis"]
+    rest = tuple(rest)
+    along = lambda kv: entry["input"](tuple(rest[:ax_]) + (kv,) + tuple(rest[ax_:]))     # noqa
+    r = entry["out"](*rest) if rest else entry["out"]()
+    n = A.T(entry["in_shape"][ax_])
+    ok = (lambda t: t != NAN) if entry["name"] == "nanargmax" else (lambda t: z3.BoolVal(True))
+    k = term(k)
+    return z3.Implies(z3.And(k >= 0, k < n, ok(along(k))), z3.And(along(k) <= along(r), z3.Implies(k < r, along(k) < along(r))))
+
+
 model(np.argmax)(_argmax_model(False))
 model(np.nanargmax)(_argmax_model(True))
 
@@ -1566,6 +1580,23 @@ def _cumsum(I, a, k):
     if not _anysym(a, k):
         return NotImplemented
     x = A.as_sarr(a[0])
+    axis_ = k.get("axis", a[1] if len(a) > 1 else None)
+    if x.ndim == 2 and axis_ in (1, -1):
+        # running sum along the rows of a 2-d array: c[i,0] = x[i,0], c[i,t] = c[i,t-1] + x[i,t] (closed forms need induction: lemmas in the contract)
+        dt2 = np.dtype("int64") if x.dtype.kind in "biu" else x.dtype
+        s2 = x.snapshot()
+        f2 = z3.Function(fresh_name("cumsum2"), z3.IntSort(), z3.IntSort(), A.sort_of(dt2))
+        n0, n1 = A.T(x.shape[0]), A.T(x.shape[1])
+        iq, kq2 = z3.Int(fresh_name("ci")), z3.Int(fresh_name("cs"))
+        el2 = lambda i_, q: A.cast_term(x.dtype, dt2, s2((i_, q)))      # noqa
+        A.note_fact(z3.ForAll([iq], z3.Implies(z3.And(iq >= 0, iq < n0, n1 >= 1), f2(iq, z3.IntVal(0)) == el2(iq, z3.IntVal(0))), patterns=[f2(iq, z3.IntVal(0))]),
+                    z3.ForAll([iq, kq2], z3.Implies(z3.And(iq >= 0, iq < n0, kq2 >= 1, kq2 < n1), f2(iq, kq2) == f2(iq, kq2 - 1) + el2(iq, kq2)), patterns=[f2(iq, kq2)]))
+        c_ = A.cur()
+        if c_ is not None:
+            if not hasattr(c_, "cumsum_log"):
+                c_.cumsum_log = []
+            c_.cumsum_log.append({"f": f2, "input": s2, "shape": x.shape})
+        return SArr(dt2, x.shape, lambda idx: f2(idx[0], idx[1]))
     if x.ndim != 1:
         raise Unsupported("cumsum of a n-d array")
     dt = np.dtype("int64") if x.dtype.kind in "biu" else x.dtype
